@@ -16,7 +16,13 @@ public:
 template<>
 SafeInt Converter<SafeInt>::getValue(Number const & val) {
     assert(val.isInteger());
-    return SafeInt(static_cast<ptrdiff_t>(val.get_d()));
+    // Exact conversion. Going through double silently rounds constants above 2^53 and is undefined
+    // beyond the range of ptrdiff_t; constants that do not fit are reported like any other SafeInt overflow.
+    if (auto const numDen = val.tryGetNumDen()) { return SafeInt(numDen->first); }
+    mpz_class const num = val.getMpq().get_num();
+    if (not num.fits_slong_p()) { throw std::overflow_error("Constant does not fit the integer type of the IDL solver"); }
+    static_assert(sizeof(long) == sizeof(ptrdiff_t));
+    return SafeInt(num.get_si());
 }
 
 template<>
